@@ -1,3 +1,22 @@
+/-
+  C10 — helper lemmas and specification vocabulary.
+
+  Heap
+    hasN / cnt      number of chunks that contain a given byte; the tiling
+                    invariant is  ∀ x, cnt x (flp ++ live) = [x < brk]
+    Below           free-list order: end of c < address of d (ordered, not adjacent)
+    HInv            the inductive heap invariant; malloc_inv / free_inv /
+                    realloc_inv / run_inv
+    Made            chunks produced by coalescing: address and end are those of
+                    constituents
+    Ev.lo/hi, Ev.Avoids, Ev.Inside, *_evs_where, *_evs_avoid   where the stores go
+    Mem, Ev.Step, Exec                                         memory semantics of the events
+    realloc_where, realloc_prefix', realloc_result, step_keeps_others
+    Reach           states reachable by a history from the initial heap
+  Pools
+    cells, engage_eq, PInv (free ++ live is a permutation of the cells),
+    IInv (igris::pool: _count = length of the free list), SInv (object ledger)
+-/
 import IgrisModel.C10.Model
 namespace Igris.C10
 
@@ -1510,7 +1529,7 @@ theorem realloc_result (cfg : Cfg) (ok : CfgOK cfg) (h : Heap) (p n sz q : Nat) 
             exact ⟨s, rfl, by omega, hq8⟩
 
 /-- every other live chunk is still live, with the same size, after the request -/
-theorem step_keeps_others (cfg : Cfg) (ok : CfgOK cfg) (h : Heap) (op : Op) (r : Res) (hi : HInv cfg h)
+theorem step_keeps_others (cfg : Cfg) (_ok : CfgOK cfg) (h : Heap) (op : Op) (r : Res) (hi : HInv cfg h)
     (hs : step cfg h op = some r) :
     ∀ c ∈ h.live, op.target ≠ some (c.1 + 8) → c ∈ r.h.live := by
   intro c hc hne
@@ -1720,7 +1739,7 @@ theorem IInv.init (e n : Nat) (he : 0 < e) : IInv e n ⟨IPool.init (n * e) e, [
   simp only [IPool.init]
   rw [engage_eq e n he, List.length_reverse, cells_length, Nat.mul_div_cancel n he]
 
-theorem istep_inv {e n : Nat} (he : 0 < e) {s s' : IState} {op : IOp} {ret : Option Nat} (hi : IInv e n s)
+theorem istep_inv {e n : Nat} (_he : 0 < e) {s s' : IState} {op : IOp} {ret : Option Nat} (hi : IInv e n s)
     (hs : istep s op = some (s', ret)) : IInv e n s' := by
   obtain ⟨hp, hc, hsz, hel⟩ := hi
   cases op with
@@ -1887,5 +1906,31 @@ theorem prun_allocs {e n : Nat} (he : 0 < e) : ∀ (k : Nat) (s s' : PState), PI
         obtain ⟨rfl, _⟩ := hs
         simp only [List.length_cons] at this hf1 ⊢
         omega
+
+
+/-! ### reachable heap states -/
+
+def Reach (cfg : Cfg) (h : Heap) : Prop := ∃ ops, run cfg Heap.init ops = some h
+
+theorem Reach.inv {cfg : Cfg} {h : Heap} (ok : CfgOK cfg) (hr : Reach cfg h) : HInv cfg h := by
+  obtain ⟨ops, hr⟩ := hr
+  exact run_inv cfg ok ops _ _ (HInv.init cfg) hr
+
+theorem Reach.step {cfg : Cfg} {h : Heap} {op : Op} {r : Res} (hr : Reach cfg h)
+    (hs : step cfg h op = some r) : Reach cfg r.h := by
+  obtain ⟨ops, hr⟩ := hr
+  refine ⟨ops ++ [op], ?_⟩
+  have : ∀ (ops : List Op) (h0 : Heap), run cfg h0 ops = some h → run cfg h0 (ops ++ [op]) = some r.h := by
+    intro ops
+    induction ops with
+    | nil => intro h0 h1; simp only [run] at h1; cases h1; simp [run, hs]
+    | cons o os ih =>
+      intro h0 h1
+      simp only [run, List.cons_append] at h1 ⊢
+      split at h1
+      · cases h1
+      · rename_i r1 hs1; exact ih _ h1
+  exact this ops _ hr
+
 
 end Igris.C10
